@@ -721,3 +721,32 @@ def gen_spawn_storm(rng):
             acts.append([("p", f"leaf {(i + 1) * 10 + j}")])
     return {"src": src, "acts": acts, "lines": sorted(lines), "ncores": 1 + m + m * l, "fail": False, "failing": None,
             "slots": {}, "incs": 0, "storm": True}
+
+
+def gen_spawn_staggered(rng):
+    """Cores are spawned while earlier ones have already finished AND BEEN COLLECTED by Wait (it polls every few ms) and
+    others are still running: core bookkeeping (ids, list) must not confuse a late core with a collected or a live one."""
+    src = ['fn quick(id: int) { println("quick", id); }',
+           'fn slow(id: int, t: float) { time.sleep(t); println("slow", id); }',
+           'fn nest(id: int, t: float) { spawn quick(id * 10); time.sleep(t); spawn slow(id * 10 + 1, t); println("nest", id); }']
+    body, lines = [], []
+    n = rng.randrange(4, 9)
+    for k in range(1, n + 1):
+        kind = rng.choice(["quick", "slow", "slow", "nest", "pause"])
+        t = rng.choice(["0.02", "0.04", "0.07"])
+        if kind == "quick":
+            body.append(f"spawn quick({k});")
+            lines.append(f"quick {k}")
+        elif kind == "slow":
+            body.append(f"spawn slow({k}, {t});")
+            lines.append(f"slow {k}")
+        elif kind == "nest":
+            body.append(f"spawn nest({k}, {t});")
+            lines += [f"quick {k * 10}", f"slow {k * 10 + 1}", f"nest {k}"]
+        if kind == "pause" or rng.random() < 0.5:
+            body.append(f"time.sleep({rng.choice(['0.015', '0.03', '0.05'])});")
+    body.append('println("main done");')
+    lines.append("main done")
+    src.append("fn main() { " + " ".join(body) + " }")
+    return {"src": "\n".join(src) + "\n", "acts": [], "lines": sorted(lines), "ncores": 1 + len(lines) - 1, "fail": False,
+            "failing": None, "slots": {}, "incs": 0, "staggered": True}
